@@ -26,6 +26,30 @@ def dflt(c: int, f: int) -> int:
     return (c + f) % 2
 
 
+# The model's field domain {0, 1} is abstract; the binding instantiates it per field with real
+# values that include None and the other falsy values (0, "", False), all legitimate field
+# values (e.g. a field annotated `float | None = 0.5`).  Within one field the two values are
+# unequal and of different type/identity, so a value taken from the wrong place always shows.
+_ENC = {
+    (1, 1): (None, 0.5),   # odd class, f1:  None | 0.5     (default None)
+    (1, 2): (0, ""),       # odd class, f2:  0 | ""         (default "" resp. 0)
+    (0, 1): (False, None),  # even class, f1: False | None   (default None)
+    (0, 2): (0.0, "x"),    # unknown field f2 of a one-field class (never stored)
+}
+
+
+def enc(c: int, f: int, x: int):
+    return _ENC.get((c % 2, f), (0, 1))[x]
+
+
+def dec(c: int, f: int, real):
+    pair = _ENC.get((c % 2, f), (0, 1))
+    for x in (0, 1):
+        if type(real) is type(pair[x]) and real == pair[x]:
+            return x
+    return ["?", repr(real)]
+
+
 class _UnknownOp(BaseException):
     pass
 
@@ -77,7 +101,7 @@ class Tree:
             if c in self.has:
                 body: dict = {"__annotations__": {f"f{f}": "int" for f in range(1, nf(c) + 1)}}
                 for f in range(1, nf(c) + 1):
-                    body[f"f{f}"] = dflt(c, f)
+                    body[f"f{f}"] = enc(c, f, dflt(c, f))
                 self.args.append(ns_meta(f"K{c}Args_{tag}", (ArgsNamespace,), body, render_cls=rc))
                 self.sub.append(ns_meta(f"K{c}HandyArgs_{tag}", (self.args[c],),
                                         {"describe": lambda self: repr(self)}))
@@ -94,14 +118,14 @@ class Tree:
         if isinstance(x, ArgsNamespace):
             c = self.index[x.get_render_cls()]
             d = x.as_dict()
-            return ["ns", c, [d[f"f{f}"] for f in range(1, len(d) + 1)]]
+            return ["ns", c, [dec(c, f, d[f"f{f}"]) for f in range(1, len(d) + 1)]]
         if isinstance(x, RenderArgs):
             c = self.index[x.render_cls]
             vals: list = [[] for _ in range(self.n)]
             for ns in x:  # the constituents as iterated
                 k = self.index[ns.get_render_cls()]
                 d = ns.as_dict()
-                vals[k - 1] = [d[f"f{f}"] for f in range(1, len(d) + 1)]
+                vals[k - 1] = [dec(k, f, d[f"f{f}"]) for f in range(1, len(d) + 1)]
             return ["ra", c, vals]
         return ["?", -1, repr(x)]
 
@@ -130,8 +154,13 @@ class Tree:
         from term_image.renderable import RenderArgs
 
         name, a, b, c, nss, kw = op
-        kwargs = {f"f{f}": v for f, v in kw}
         objs = _Operands(self, objs)
+        # the class whose fields the keywords address (for the value encoding)
+        if name == "NsUpdate":
+            kc = self.index[objs[a].get_render_cls()]
+        else:
+            kc = c
+        kwargs = {f"f{f}": enc(kc, f, v) for f, v in kw}
         try:
             if name == "NsNew":
                 r = (self.sub[c] if b == 1 else self.args[c])(**kwargs)
@@ -205,21 +234,28 @@ def relations(tree: Tree, live: list) -> dict:
 
 def try_class_def(d: dict) -> dict:
     """Create the namespace class described by `d` (see ClassDefs in RenderArgs.tla) with
-    the real metaclasses.  Returns {"exc": [mro names] | [], "render_cls": "R"|"R0"|None}."""
+    the real metaclasses.  Returns {"exc": [mro names] | [], "render_cls": "R"|"R0"|None,
+    "instantiable": bool, "after": {"r": "new"|"prev"|"none"|..., "r0": "base"|"none"|...}}
+    where `after` is what R and R0 own (Args / _Data_) once the creation returned or raised."""
     from term_image.renderable import ArgsNamespace, DataNamespace, Renderable
 
     tag = next(_uid)
     meta_r = type(Renderable)
-    base_ns = ArgsNamespace if d["kind"] == "args" else DataNamespace
+    args = d["kind"] == "args"
+    base_ns = ArgsNamespace if args else DataNamespace
     ns_meta = type(base_ns)
+    attr = "Args" if args else "_Data_"
 
     def fields(name):
         return {"__annotations__": {name: "int"}, name: 0}
 
     r0 = meta_r(f"R0_{tag}", (Renderable,), {})
     r = meta_r(f"R_{tag}", (Renderable,), {})
-    if d["inherits"]:
-        base = ns_meta(f"BaseNs_{tag}", (base_ns,), fields("b"), render_cls=r0)
+    base0 = prev = new = None
+    if d["depth"] > 0:
+        base0 = base = ns_meta(f"BaseNs_{tag}", (base_ns,), fields("b"), render_cls=r0)
+        for lvl in range(1, d["depth"]):  # plain subclasses: inherit fields and association
+            base = ns_meta(f"BaseNs_{tag}_{lvl}", (base,), {})
     elif tag % 2:
         base = ns_meta(f"Plain_{tag}", (base_ns,), {})
     else:
@@ -228,28 +264,40 @@ def try_class_def(d: dict) -> dict:
     if d["nbases"] == 2:
         bases += (ns_meta(f"Other_{tag}", (base_ns,), {}),)
     if d["taken"]:
-        ns_meta(f"Prev_{tag}", (base_ns,), fields("p"), render_cls=r)
+        prev = ns_meta(f"Prev_{tag}", (base_ns,), fields("p"), render_cls=r)
     body: dict = {}
     if d["defines"]:
         body["__annotations__"] = {"a": "int"}
         if d["defaults"]:
             body["a"] = 0
     kwargs = {"render_cls": r} if d["assoc"] else {}
+    out: dict = {"exc": [], "render_cls": None, "instantiable": False}
     try:
         new = ns_meta(f"New_{tag}", bases, body, **kwargs)
     except Exception as e:  # noqa: BLE001
-        return {"exc": mro_names(e), "render_cls": None}
-    try:
-        rc = new.get_render_cls()
-        inst_ok = True
+        out["exc"] = mro_names(e)
+
+    def owner(rc, names):
+        own = getattr(rc, attr)
+        for label, c in names:
+            if c is not None and own is c:
+                return label
+        return "none" if own is None else f"other:{getattr(own, '__name__', own)}"
+
+    out["after"] = {"r": owner(r, [("new", new), ("prev", prev)]),
+                    "r0": owner(r0, [("base", base0), ("new", new)])}
+    if new is not None:
         try:
-            new()
+            rc = new.get_render_cls()
+            out["render_cls"] = "R" if rc is r else "R0" if rc is r0 else "?"
+            try:
+                new()
+                out["instantiable"] = True
+            except Exception:  # noqa: BLE001
+                pass
         except Exception:  # noqa: BLE001
-            inst_ok = False
-    except Exception:  # noqa: BLE001
-        return {"exc": [], "render_cls": None, "instantiable": False}
-    return {"exc": [], "render_cls": "R" if rc is r else "R0" if rc is r0 else "?",
-            "instantiable": inst_ok}
+            pass
+    return out
 
 
 def try_instance_rule(rule: dict) -> list[str]:
